@@ -187,11 +187,9 @@ impl NormalizingHasher {
         }
     }
 
-    pub(crate) fn done(mut self) -> Box<dyn DynDigest + Send> {
-        if self.text_mode && self.last_was_cr {
-            self.hasher.update(b"\n")
-        }
-
+    pub(crate) fn done(self) -> Box<dyn DynDigest + Send> {
+        // A trailing lone CR has already been hashed as-is in `hash_buf`: it is not a line ending
+        // and must not be completed to CR LF (the reader based normalization leaves it alone, too).
         self.hasher
     }
 
